@@ -29,6 +29,31 @@ def perturb(text, rnd):
     return "".join(new if j == i else x for j, (k, x) in enumerate(toks))
 
 
+NEAR_PRE = ('include "stdgates.inc";\ngate bell a, b { h a; cx a, b; }\ngate rot(t) a { rz(t) a; }\n'
+            'def fsub(int k) -> int { return k; }\nqubit[2] q;\nqubit r;\nint count = 1;\nconst int lim = 4;\n'
+            'float[64] ang = 0.5;\nbit[2] cb;\n')
+NEAR_USES = [("bell", "{} q[0], q[1];"), ("rot", "{}(ang) r;"), ("h", "{} r;"), ("x", "{} r;"), ("sdg", "{} r;"), ("cx", "{} q[0], q[1];"),
+             ("swap", "{} q[0], q[1];"), ("rz", "{}(ang) r;"), ("cphase", "{}(ang) q[0], q[1];"), ("u3", "{}(ang, ang, ang) r;"),
+             ("ccx", "{} q[0], q[1], r;"), ("U", "{}(ang, ang, ang) r;"), ("fsub", "count = {}(2);"), ("count", "count = {} + 1;"),
+             ("count", "{} = 3;"), ("lim", "int[{}] w;"), ("lim", "count = {};"), ("ang", "rot({}) r;"), ("q", "cb = measure {};"),
+             ("r", "reset {};"), ("r", "h {};"), ("cb", "cb = {};"), ("pi", "ang = {};"), ("tau", "ang = {} / 2;")]
+
+
+def near_use_programs():
+    """every KIND of use site (calls of user, standard-library and built-in gates, subroutine calls, variables, constants,
+    designators, qubit operands, built-in constants) with the name replaced by each near name of the bound one: the
+    near name is a different, unbound identifier, so the program has a fault that must survive renaming it apart —
+    a look-up that relates names (case folding, prefixes, normalisation) only for SOME symbol kinds shows up here"""
+    out = []
+    for name, use in NEAR_USES:
+        vs = [name.upper(), name.lower(), name.capitalize(), name.swapcase(), name + "_", "_" + name, name + "0",
+              name[:-1] if len(name) > 1 else name + "x", name + "é", name.replace("a", "а").replace("c", "с").replace("x", "х")]
+        for v in dict.fromkeys(vs):
+            if v != name and v not in OC.RESERVED and (v[0].isalpha() or v[0] == "_") and v not in NEAR_PRE.replace("(", " ").replace(";", " ").split():
+                out.append(NEAR_PRE + use.format(v) + "\n")
+    return out
+
+
 def check(ctx):
     C.extract(ctx)
     C.prove(ctx, ["Oq3.Props.C17", "Oq3.Props.C17RenameSym", "Oq3.Props.C17Rename", "Oq3.Props.C17Layout", "Oq3.Props.C17LayoutTrees", "Oq3.Props.C17Lex", "Oq3.Props.C17RenameText", "Oq3.Props.C17RenameTextWit"])
@@ -55,6 +80,7 @@ def check(ctx):
     base += OB.gen_literal_programs(ctx.seed + 71, 600 if q else 8000)
     near = [perturb(t, rnd) for t in base[: (1500 if q else 20000)]]
     base += [t for t in near if t]
+    base += near_use_programs()
     base = C.uniq(base)
     recs, stats = SP.run(ctx, base, tag="c17base")
     lexl = C.run_impl(ctx, "lex", [G.enc(t) for t in base], tag="c17lex")
